@@ -28,6 +28,7 @@ def run(chk):
     r5(chk, prog)
     r6(chk, prog)
     r7(chk, prog)
+    r8(chk, prog)
     from . import c11
     with chk.shared():
         c11.r7(chk, prog, prog.module("json_object.c"))   # shared: the sign-encoded string length is decoded before use
@@ -883,3 +884,89 @@ def r7(chk, prog):
         else:
             chk.proven(rid, f.name, cls, f.entry.term.locstr(), "exact or saturated on %d triples" % cnt.get(cls, 0))
     chk.floor(rid, n, 80, "(representation, value, increment) triples")
+
+
+# ---------------------------------------------------------------------------
+# R8 an integer node read as a double
+def r8(chk, prog):
+    from .. import pe
+    rid = "C10.R8"
+    chk.rule(rid, "json_object_get_double on an integer node, evaluated for both representations over their boundary values: the "
+                  "value that reaches the integer -> double conversion is the stored value read with the signedness of its tag "
+                  "(a uint64 above INT64_MAX is converted as unsigned, not clamped through the signed accessor)")
+    m = prog.module("json_object.c")
+    f = m.functions.get("json_object_get_double")
+    chk.require(f is not None and not f.is_decl, "json_object_get_double not found")
+    chk.touched(f)
+    tags = m.enumerators("json_object_int_type")
+    T_I, T_U = tags["json_object_int_type_int64"], tags["json_object_int_type_uint64"]
+    types = m.enumerators("json_type")
+    names = m.struct_fields("%struct.json_object_int")
+    chk.require(names and "cint_type" in names and "cint" in names, "layout of struct json_object_int not found")
+    K_TAG, K_VAL = names.index("cint_type"), names.index("cint")
+
+    class DblPE(pe.PE):
+        def should_inline(self, g, instr):
+            return g.internal or (g.module is f.module and g.name.startswith("json_object_get_") and g is not f)
+
+        def init_mem(self, state, base, path, t):
+            if base == "errno":
+                return pe.C(0)
+            if base != "jso":
+                return pe.TOP
+            q = [x for x in path if x != ("i", 0)]
+            k = 0 if not q else (q[0] if isinstance(q[0], int) else q[0][2] if isinstance(q[0], tuple) and q[0][0] == "f" else None)
+            if not q:
+                return pe.C(types["json_type_int"])
+            if k == K_TAG and len(q) == 1:
+                return pe.C(self.tag0)
+            if k == K_VAL:
+                return pe.C(self.val0)
+            return pe.TOP
+
+        def call_model(self, state, frame, i, args):
+            if i.callee in ("json_abort", "__assert_fail", "abort"):
+                return "STOP"
+            if i.callee == "__errno_location":
+                return ("ptr", "errno", ())
+            return None
+
+        def _simple(self, frame, i, state):
+            if i.op in ("sitofp", "uitofp"):
+                state.trace.append(("conv", i.op, self.val(frame, i.ops[0], state), i))
+            return super()._simple(frame, i, state)
+    SV = [I64MIN, -10, -1, 0, 1, I64MAX]
+    UV = [0, 1, I64MAX, 1 << 63, (1 << 63) + (1 << 62), U64MAX]
+    bad = und = None
+    n = 0
+    for tag, vals in ((T_I, SV), (T_U, UV)):
+        for v in vals:
+            h = DblPE(prog, max_leaves=40, max_steps=10000)
+            h.tag0 = tag
+            h.val0 = v if v <= I64MAX else v - (1 << 64)
+            try:
+                leaves = h.run(f, [("ptr", "jso", ())], pe.State())
+            except Exception as e:
+                und = und or "%d: %s" % (v, e)
+                continue
+            n += 1
+            rets = [lf for lf in leaves if lf.kind == "ret"]
+            if len(rets) != 1:
+                und = und or "value %d: the evaluation does not end in one return" % v
+                continue
+            convs = [e for e in rets[0].state.trace if e[0] == "conv"]
+            if len(convs) != 1 or not pe.is_const(convs[0][2]):
+                und = und or "value %d (%s): the operand of the integer -> double conversion is not concrete" % (v, "int64" if tag == T_I else "uint64")
+                continue
+            op, a = convs[0][1], convs[0][2][1]
+            got = a % (1 << 64) if op == "uitofp" else (a if -(1 << 63) <= a <= I64MAX else (a % (1 << 64)) - (1 << 64) if (a % (1 << 64)) > I64MAX else a % (1 << 64))
+            if got != v and bad is None:
+                bad = ("a node holding %d as %s is read as a double by converting %d (%s): the exact value is replaced by another one"
+                       % (v, "int64" if tag == T_I else "uint64", got, "signed conversion" if op == "sitofp" else "unsigned conversion"))
+    if bad:
+        chk.refuted(rid, f.name, "integer node as double", f.entry.term.locstr(), bad)
+    elif und:
+        chk.undecided(rid, f.name, "integer node as double", f.entry.term.locstr(), und)
+    else:
+        chk.proven(rid, f.name, "integer node as double", f.entry.term.locstr(), "the stored value itself is converted on %d (tag, value) pairs" % n)
+    chk.floor(rid, n, 8, "(tag, value) pairs")
